@@ -1094,7 +1094,23 @@ func (c *c01Cells) exec(locals map[*ssa.Alloc]bool, env pathEnv, in ssa.Instruct
 
 func c01FindPath(p *Prog, q PathQuery) []string {
 	locals := structLocals(q.Fn)
-	if len(locals) == 0 || q.FlagBlind {
+	// What holds where the search begins. A search that starts in the middle of the function (after an instruction,
+	// or by taking an edge) starts on a path that came through every branch edge dominating that point; the outcome
+	// of those branches is a fact about the CURRENT instance of their condition values (an instance is replaced only
+	// when its defining block runs again, and then walkBlock forgets it like every other value). FindPath starts with
+	// nothing known: a flag that is a phi of constants is rediscovered on the way (the break edge binds it), a flag
+	// that is a computed value (`found := idx >= 0`, tested before the start and again after it) is not. The start
+	// guards are assumed before the walk; nothing else changes.
+	var startGuards []Guard
+	if !q.FlagBlind {
+		switch {
+		case q.StartAfter != nil:
+			startGuards = Guards(q.StartAfter.Block())
+		case q.StartEdge[0] != nil:
+			startGuards = Guards(q.StartEdge[0])
+		}
+	}
+	if q.FlagBlind || (len(locals) == 0 && len(startGuards) == 0) {
 		return FindPath(p, q)
 	}
 	seen := map[string]bool{}
@@ -1199,6 +1215,9 @@ func c01FindPath(p *Prog, q PathQuery) []string {
 	}
 	for _, v := range q.IsNil {
 		env[v] = envVal{known: true, isNil: true}
+	}
+	for i := len(startGuards) - 1; i >= 0; i-- { // outermost first: a nearer branch speaks last
+		env.assume(startGuards[i].Cond, startGuards[i].True)
 	}
 	cs := (&c01Cells{}).clone()
 	switch {
